@@ -1,0 +1,8 @@
+// Package verifhook provides cooperative scheduling points for the
+// deterministic-simulation harness kept outside this repository.
+//
+// Without the build tag "verif" every function in this package is an empty
+// function that the compiler inlines away: the shipped behaviour is unchanged.
+// With the tag, the functions forward to function variables that the harness
+// installs; when no harness is installed they still do nothing.
+package verifhook
